@@ -59,8 +59,26 @@ type c18Stats struct {
 	resetThenSum        bool
 }
 
+// held is a digest returned by an earlier Sum: it belongs to the caller and must not change
+// when the object is used again, reset, returned to the pool or handed to someone else.
+type held struct {
+	got  []byte
+	want []byte
+	op   int
+}
+
 func runC18(c c18Case, st *c18Stats) error {
 	var slots [3]*slot
+	var helds []held
+	checkHeld := func(i int, what string) error {
+		for _, h := range helds {
+			if !bytes.Equal(h.got, h.want) {
+				return fmt.Errorf("op %d (%s): the digest returned by Sum at op %d changed afterwards: %x -> %x (Sum must return memory owned by the caller)", i, what, h.op, h.want, h.got)
+			}
+		}
+
+		return nil
+	}
 	lastKeyLen := map[bool]int{} // per algorithm: key length of the most recently returned object
 	putSeen := map[bool]bool{}
 	defer func() {
@@ -115,6 +133,9 @@ func runC18(c c18Case, st *c18Stats) error {
 				continue
 			}
 			prefix := make([]byte, o.Prefix, o.Prefix+o.Spare)
+			if o.Prefix == 0 && o.Spare == 0 {
+				prefix = nil // the usual call: Sum(nil)
+			}
 			for k := range prefix {
 				prefix[k] = byte(0xC0 + k)
 			}
@@ -128,6 +149,9 @@ func runC18(c c18Case, st *c18Stats) error {
 			}
 			if len(got) != o.Prefix+len(want) || !bytes.Equal(got[:o.Prefix], prefix) {
 				return fmt.Errorf("op %d: Sum did not append to its argument (len %d, prefix %d)", i, len(got), o.Prefix)
+			}
+			if len(helds) < 6 {
+				helds = append(helds, held{got: got, want: append([]byte(nil), got...), op: i})
 			}
 			if !bytes.Equal(got[o.Prefix:], want) || !bytes.Equal(want, byDef) {
 				return fmt.Errorf("op %d: pooled HMAC-%s(key %d bytes, %d bytes written) = %x, crypto/hmac = %x, RFC 2104 by definition = %x",
@@ -156,6 +180,9 @@ func runC18(c c18Case, st *c18Stats) error {
 			slots[o.H%3] = nil
 		default:
 			return fmt.Errorf("harness: unknown op %q", o.Op)
+		}
+		if err := checkHeld(i, o.Op); err != nil {
+			return err
 		}
 	}
 
